@@ -62,6 +62,8 @@ pub struct Scenario {
     pub unknown_keys: Vec<String>,
     pub fixed_change: Option<Address>,
     pub block_accepted: Vec<TxHash>,    // transactions accepted since the block was opened (the harness's own record)
+    pub faucets_accepted: HashSet<TxHash>,   // C19: every faucet transaction ever accepted on this lineage
+    pub votes_ops: u32,
 }
 
 fn std_cov(kind: &CovKind, keys: &Keys) -> Vec<u8> {
@@ -100,6 +102,9 @@ impl Scenario {
         let what = format!("executing the same history a second time in the same process differs from the first execution at step {} ({} vs {} steps; first: {}; second: {})",
             k, a.len() - 1, b.len() - 1, self.log.get(k.saturating_sub(1)).cloned().unwrap_or_default(), again.log.get(k.saturating_sub(1)).cloned().unwrap_or_default());
         self.viol("C03", what.clone());
+        // whether a block is accepted must be a function of the block and the state it is applied to
+        let at_block = |l: &Vec<String>| l.get(k.saturating_sub(1)).map(|x| x.starts_with("apply_block")).unwrap_or(false);
+        if at_block(&self.log) || at_block(&again.log) { self.viol("C06", what.clone()); }
         self.viol("C04", what);
     }
     pub fn viol(&mut self, prop: &str, what: String) { let st = self.steps.len(); self.violates.push((st, prop.to_string(), what)); }
@@ -140,7 +145,7 @@ impl Scenario {
         let mut sc = Scenario { db, mode: Mode::U(st), dict: Dict::default(),
             tables: Tables { hashes: vec![], sigs: vec![], reward: BTreeMap::new(), marker: BTreeMap::new(), hdr: vec![], melpow: vec![], ed: vec![] },
             proofs: Proofs { table: vec![] }, defs: vec![], txnames: HashMap::new(), name: name.to_string(), init: String::new(), steps: vec![], log: vec![],
-            covs, keys, violates: vec![], class: vec![], counters: BTreeMap::new(), unknown_keys: vec![], fixed_change: None, block_accepted: vec![] };
+            covs, keys, violates: vec![], class: vec![], counters: BTreeMap::new(), unknown_keys: vec![], fixed_change: None, block_accepted: vec![], faucets_accepted: HashSet::new(), votes_ops: 0 };
         sc.dict.coin(CoinID::zero_zero());
         let covh: Vec<Address> = sc.covs.keys().cloned().collect();
         for a in covh { sc.dict.cov(a); }
@@ -311,7 +316,18 @@ impl Scenario {
         let mut work = u.clone();
         let res = catch_unwind(AssertUnwindSafe(|| { let r = work.apply_tx_batch(txs); (r, work) }));
         let code = match res {
-            Ok((Ok(()), w)) => { self.mode = Mode::U(w); for t in txs { self.block_accepted.push(t.hash_nosigs()); } 0 }
+            Ok((Ok(()), w)) => {
+                self.mode = Mode::U(w);
+                for t in txs {
+                    self.block_accepted.push(t.hash_nosigs());
+                    // C19: a faucet transaction is accepted at most once on a lineage (the grandfathered testnet transaction aside)
+                    if t.kind == TxKind::Faucet && hex::encode(t.hash_nosigs().0 .0) != "30a60b20830f000f755b70c57c998553a303cc11f8b1f574d5e9f7e26b645d8b"
+                        && !self.faucets_accepted.insert(t.hash_nosigs()) {
+                        self.viol("C19", format!("faucet transaction {} accepted a second time", hex::encode(&t.hash_nosigs().0 .0[..6])));
+                    }
+                }
+                0
+            }
             Ok((Err(e), w)) => {
                 if w.verif_coins().root_hash() != before || w.verif_transactions().len() != u.verif_transactions().len() {
                     self.viol("C02", "rejected batch changed the state".into());
@@ -431,6 +447,7 @@ impl Scenario {
                 self.mode = Mode::S(s);
                 self.note_header(&hd);
                 self.push_step(format!("OpSeal {} {} (Some {})", action(&a), roots_of(&hd), header(&hd)), 0, &format!("seal({})", a.map(|x| x.fee_multiplier_delta.to_string()).unwrap_or("-".into())));
+                { let he = hd.height.0 % STAKE_EPOCH; if self.votes_ops == 0 || (self.votes_ops < 3 && (he <= 1 || he + 2 >= STAKE_EPOCH)) { self.op_votes(); } }
                 0
             }
             Err(p) => {
@@ -617,6 +634,7 @@ impl Scenario {
 
     pub fn op_confirm(&mut self, signers: &[(usize, bool)]) {
         let s = match &self.mode { Mode::S(s) => s.clone(), _ => panic!("confirm on unsealed") };
+        if self.votes_ops < 3 { self.op_votes(); }
         let hh = s.header().hash();
         self.note_header(&s.header());
         let mut proof: ConsensusProof = BTreeMap::new();
@@ -633,6 +651,39 @@ impl Scenario {
             Ok(b) => self.push_step(format!("OpConfirm {} {} {}", hn(&hh), pstr, b), 0, &format!("confirm={}", b)),
             Err(p) => { self.viol("C09", format!("confirm panicked: {}", crate::panic_msg(&p))); self.push_step("OpJump".into(), 100, "confirm(panic)") }
         }
+    }
+
+    /// C13: voting power as the real StakeSet reports it, for the epochs around every boundary of every stake and for
+    /// every key in sight; compared with a recomputation from the documents here and with the model's votes / total_votes
+    pub fn op_votes(&mut self) {
+        let s = match &self.mode { Mode::S(s) => s.clone(), _ => return };
+        let st = s.raw_stakes();
+        let docs: Vec<StakeDoc> = st.iter().map(|(_, d)| d.clone()).collect();
+        if docs.is_empty() { return; }
+        let cur = s.header().height.0 / STAKE_EPOCH;
+        let mut epochs: std::collections::BTreeSet<u64> = [cur, cur + 1].into_iter().collect();
+        for d in &docs { for e in [d.e_start.saturating_sub(1), d.e_start, d.e_post_end.saturating_sub(1), d.e_post_end, d.e_post_end.saturating_add(1)] { epochs.insert(e); } }
+        let mut keys: Vec<Ed25519PK> = docs.iter().map(|d| d.pubkey).chain(self.keys.pk.iter().cloned()).collect();
+        keys.sort(); keys.dedup(); keys.truncate(8);
+        // the current epoch first, then the boundaries nearest to it
+        let mut es: Vec<u64> = epochs.into_iter().collect();
+        es.sort_by_key(|e| (if *e >= cur { e - cur } else { cur - e }, *e));
+        es.truncate(7);
+        for e in es {
+            let res = catch_unwind(AssertUnwindSafe(|| (keys.iter().map(|k| (*k, st.votes(e, *k))).collect::<Vec<_>>(), st.total_votes(e))));
+            let (kv, tot) = match res { Ok(x) => x, Err(p) => { self.viol("C09", format!("votes panicked: {}", crate::panic_msg(&p))); continue } };
+            for (k, v) in &kv {
+                let spec: u128 = docs.iter().filter(|d| d.pubkey == *k && d.e_start <= e && e < d.e_post_end).map(|d| d.syms_staked.0).sum();
+                if spec != *v { self.viol("C13", format!("epoch {}: a key's voting power is {} but its registered stakes with start <= epoch < end add up to {}", e, v, spec)); }
+            }
+            let all: u128 = docs.iter().filter(|d| d.e_start <= e && e < d.e_post_end).map(|d| d.syms_staked.0).sum();
+            if all != tot { self.viol("C13", format!("epoch {}: total voting power is {} but the active stakes add up to {}", e, tot, all)); }
+            let mine: u128 = { let ks: HashSet<Ed25519PK> = docs.iter().map(|d| d.pubkey).collect(); ks.iter().map(|k| st.votes(e, *k)).sum() };
+            if mine != tot { for p in ["C13", "C14"] { self.viol(p, format!("epoch {}: the votes of the keys add up to {} but the total voting power is {}", e, mine, tot)); } }
+            let kvs = cf::list(&kv, |(k, v)| format!("({}, {})", U256::from_be_bytes(k.0), v));
+            self.push_step(format!("OpVotes {} {} {}", e, kvs, tot), 0, "votes");
+        }
+        self.votes_ops += 1;
     }
 
     /// builds a block on a copy of the current sealed state, optionally mutates it, applies it with apply_block
@@ -885,7 +936,7 @@ impl Scenario {
 
     pub fn gen_faucet(&mut self, r: &mut Rng) -> Transaction {
         let mut t = Transaction::new(TxKind::Faucet);
-        let n = r.range(1, 3);
+        let n = if r.chance(1, 12) { 0 } else { r.range(1, 3) };
         for _ in 0..n {
             let a = self.my_addr(r, true);
             t.outputs.push(CoinData { covhash: a, value: CoinValue(*r.pick(&[1u128 << 40, 1 << 50, 5_000_000, 1 << 90])), denom: *r.pick(&[Denom::Mel, Denom::Mel, Denom::Sym, Denom::Erg]), additional_data: Bytes::new() });
@@ -1513,7 +1564,12 @@ pub fn directed(r: &mut Rng) -> Vec<Scenario> {
         let t = sc.mk(r, TxKind::Normal, &[m], vec![sc.cd(at, 1 << 30, Denom::Mel)], vec![]);
         sc.mode = saved;
         let a = Some(ProposerAction { fee_multiplier_delta: 1, reward_dest: at });
-        sc.op_apply_block(&[t.clone()], a, 17, r);
+        // the block holds two Transaction values with one hash_nosigs: which one a txhash-keyed collection keeps
+        // depends on the HashSet's iteration order, so the attempt is repeated (a fresh HashSet each time)
+        for _ in 0..6 {
+            let c = sc.op_apply_block(&[t.clone()], a, 17, r);
+            if c == 0 { sc.mode = Mode::S(parent.clone()); }
+        }
         sc.op_apply_block(&[t.clone()], a, 16, r);
         sc.op_apply_block(&[t.clone()], a, 12, r);
         sc.op_apply_block(&[t], a, 0, r);
@@ -2073,6 +2129,29 @@ pub fn directed(r: &mut Rng) -> Vec<Scenario> {
         }
         sc.block_end(None);
         sc.block_end(None);
+        out.push(sc);
+    }
+    // faucets of unusual shape are faucets too: no output at all (only the fee is minted), one burnt output, a
+    // zero-valued output - each is replayed in the same batch, in a later batch of the block, in the next block,
+    // after a restart and inside a block handed to apply_block
+    {
+        let mut sc = base("d_faucet_shapes_replayed", r, NetID::Custom02, 1000);
+        let at = sc.at();
+        let mut fs: Vec<Transaction> = vec![];
+        for shape in 0..3u8 {
+            let mut f = Transaction::new(TxKind::Faucet);
+            f.outputs = match shape { 0 => vec![], 1 => vec![sc.cd(Address(HashVal::default()), 5000, Denom::Mel)], _ => vec![sc.cd(at, 0, Denom::Mel)] };
+            f.data = Bytes::from(vec![0xf0, shape]);
+            fs.push(sc.finish_tx(r, f, &[], 0, 7));
+        }
+        for f in &fs { sc.op_batch(&[f.clone()]); }
+        for f in &fs { sc.op_batch(&[f.clone()]); sc.op_batch(&[f.clone(), f.clone()]); }
+        sc.block_end(None);
+        for f in &fs { sc.op_batch(&[f.clone()]); }
+        sc.op_seal(None); sc.op_restart(); sc.op_next();
+        for f in &fs { sc.op_batch(&[f.clone()]); }
+        sc.op_seal(None);
+        for f in &fs { let c = sc.op_apply_block(&[f.clone()], None, 0, r); if c == 0 { sc.viol("C19", "a block replaying an accepted faucet transaction was accepted".into()); } }
         out.push(sc);
     }
     // a faucet transaction that lists inputs: they need their covenants' approval like any other spend
